@@ -3,7 +3,8 @@ from __future__ import annotations
 
 from harness import c04_gen as G
 
-BINDINGS = ["context", "page", "bodyassign", "defarg", "deflocal", "loop", "module", "import", "builtin", "nowhere"]
+# "pagereassign*": a <%page> argument that a body <% %> block assigns again (once / twice / inside a control block)
+BINDINGS = ["context", "page", "pagereassign", "pagereassign2", "pagereassignctl", "bodyassign", "defarg", "deflocal", "loop", "module", "import", "builtin", "nowhere"]
 # read placements: (read site of the property, host function the read is placed in)
 READS = [("body", "body"), ("topdef", "body"), ("nested", "body"), ("anon", "body"), ("named", "body"),
          ("callbody", "body"), ("ctl", "body"), ("attr", "body"), ("filter", "body"),
@@ -74,6 +75,14 @@ class Builder:
         loop_wrap = None
         if b == "page":
             self.t.page_args.append((x, self.mark("PAGE", x)))
+        elif b in ("pagereassign", "pagereassign2", "pagereassignctl"):
+            self.t.page_args.append((x, self.mark("PAGE", x)))
+            if b == "pagereassignctl":
+                self.body_pre.append(G.If([G.Assign([x], self.mark("ASG", x))]))
+            else:
+                self.body_pre.append(G.Assign([x], self.mark("ASG", x)))
+                if b == "pagereassign2":
+                    self.body_pre.append(G.Assign([x], self.mark("ASG", x)))
         elif b == "bodyassign":
             self.body_pre.append(G.Assign([x], self.mark("ASG", x)))
         elif b == "defarg":
